@@ -44,7 +44,7 @@ func c08GenState(t *rapid.T) c08StateCase {
 	c := c08StateCase{Shape: dagshape.Gen(t, p)}
 	n := rapid.IntRange(3, 24).Draw(t, "nops")
 	for i := 0; i < n; i++ {
-		k := rapid.SampledFrom([]string{"add", "add", "add", "add", "badpayload", "failwrite", "cancel", "dup", "orphan", "reopen", "concurrent", "sched", "sched", "repair"}).Draw(t, "k")
+		k := rapid.SampledFrom([]string{"add", "add", "add", "add", "badpayload", "failwrite", "failput", "failput", "cancel", "dup", "orphan", "reopen", "concurrent", "sched", "sched", "repair"}).Draw(t, "k")
 		op := c08Op{K: k, Sel: rapid.Uint32().Draw(t, "sel")}
 		switch k {
 		case "add":
@@ -259,6 +259,36 @@ func c08RunState(x *h.Ctx, c c08StateCase) {
 				x.Fatalf("injected failure did not surface")
 			}
 			rollbacks++
+		case "failput":
+			// a storage fault at ONE Put inside the admission transaction (digest leaves, graph, clock index, payloads, events):
+			// the Add must fail as a whole (rollback), and what is on disk must still imply the digests after a restart
+			if next >= len(order) {
+				continue
+			}
+			shelves := []string{xorShelf, ibltShelf, transactionsShelf, clockShelf, metadataShelf, payloadsShelf}
+			shelf := shelves[int(op.Sel)%len(shelves)]
+			f.kv.armPutFailure(shelf, 1)
+			before := f.kv.failedPuts
+			err := addOne(order[next])
+			f.kv.armPutFailure(shelf, 0)
+			if f.kv.failedPuts == before {
+				// no Put on that shelf in this transaction (e.g. no payload supplied): the add may have succeeded
+				if err == nil {
+					next++
+				}
+				x.Class("failput-not-reached:" + shelf)
+			} else {
+				x.Class("failput:" + shelf)
+				if err == nil {
+					x.Violate("state-failed-put-swallowed:"+shelf, "step %d: a Put on shelf %s failed inside the admission transaction but Add returned nil", step, shelf)
+					f.ref.set = f.ref.set // keep model as is: addOne recorded the tx as added
+				}
+				rollbacks++
+				// the truth is on disk: restart and compare
+				f.close()
+				f.open()
+				reopens++
+			}
 		case "cancel":
 			// the caller's context is cancelled after the write body ran, before commit: the store rolls the transaction back
 			if next >= len(order) {
